@@ -67,6 +67,7 @@ def run(rep: Report, tier: str) -> None:
 	rule_ternary_merge(rep, idx)
 	rule_receiver_kinds(rep, idx)
 	rule_member_binding(rep, idx)
+	rule_actualize_order(rep, idx)
 
 
 def rule_a(rep: Report, idx: SourceIndex) -> None:
@@ -754,3 +755,31 @@ def rule_member_binding(rep: Report, idx: SourceIndex) -> None:
 		r.check(bound_on == found_on, f'bind:{unparse(c_)[:50]}', (m.relpath, c_.lineno), f'`{c_.args[1].id}` was looked up on `{found_on[:70]}` but is bound on `{bound_on[:70]}`: the type variables of the member are substituted from the receiver it is bound on, and a receiver that is not actualized (an optional, an alias, Self) does not carry the class arguments in the expected positions — `opt.first` for `opt: Box[int] | None` with `@property first -> T` is typed `Box<int>` instead of `int`', unparse(c_))
 	if n_sites == 0:
 		r.skip('on_relay', f.where, 'no `<receiver>.to(<node>, <member>)` binding of the looked-up member in on_relay')
+
+
+def rule_actualize_order(rep: Report, idx: SourceIndex) -> None:
+	"""ConvertionTrait.actualize applies each unwrapping step ONCE, in the order of its table. An optional `X | None` hides X: when X is itself a proxy (a
+	type alias, a bounded type variable, `type[...]`, Self), X can only be unwrapped after the optional was. The `nullable` step must therefore be the
+	first of the table; listed after `alt` / `template` / `type` / `self`, `x: DSI | None; x['a']` (DSI = dict[str, int]) is typed `DSI` instead of int
+	and `for k, v in d.items()` with `d: DSI | None` is unresolved."""
+	from vlib.match import nodes
+	r = rep.rule('C03/optional-unwrapped-before-the-other-proxies', 'in ConvertionTrait.actualize the single-pass table of unwrapping steps lists `nullable` before self / type / template / alt (or the steps are iterated to a fixed point)', floor=1)
+	m = idx.mod('rogw/tranp/semantics/reflection/traits.py')
+	cls = m.cls('ConvertionTrait')
+	f = cls.method('actualize') if cls else None
+	if f is None:
+		r.skip('actualize', (m.relpath, 1), 'ConvertionTrait.actualize vanished')
+		return
+	tables = [d for d in nodes(f.node, ast.Dict) if d.keys and all(isinstance(k, ast.Constant) and isinstance(k.value, str) for k in d.keys) and any(k.value == 'nullable' for k in d.keys)]
+	if len(tables) != 1:
+		r.skip('actualize', f.where, 'actualize no longer keeps its steps in one dict literal keyed by step name')
+		return
+	keys = [k.value for k in tables[0].keys]
+	loops = [lp for lp in nodes(f.node, ast.For) if '.items()' in unparse(lp.iter) or '.values()' in unparse(lp.iter) or unparse(lp.iter) in {unparse(t) for a in nodes(f.node, ast.Assign) if a.value is tables[0] for t in a.targets}]
+	fixed_point = any(isinstance(n, ast.While) for n in ast.walk(f.node))
+	if not loops:
+		r.skip('actualize', f.where, 'the table of steps is not applied by one loop over the dict')
+	elif fixed_point:
+		r.ok('step-order', (m.relpath, tables[0].lineno), message='steps are iterated (while loop): order does not matter')
+	else:
+		r.check(keys[0] == 'nullable', 'step-order', (m.relpath, tables[0].lineno), f'actualize applies its steps once in the order {keys}: the optional is unwrapped after the steps that would unwrap what it contains, so for `x: DSI | None` (DSI: TypeAlias = dict[str, int]) the alias inside the optional stays an alias — `x["a"]` is typed DSI instead of int, `for k, v in x.items()` is unresolved, and a lambda passed for a `Handler | None` parameter gets the Callable itself as parameter type', str(keys))
